@@ -22,7 +22,8 @@ CHECKS = {
     'C04': dict(
         level='exploration', ref='DESIGN.md §4 C04',
         technique='deterministic simulation (fault-free + truncated-final-chunk variant): seeded worlds, explicit '
-                  'window/slice/index request lists on a lazy and an eager handle, numpy indexing on the model array',
+                  'window/slice/index request lists on a lazy and an eager handle, numpy indexing on the model array; '
+                  '10% of worlds repeat requests from 2-3 deterministically interleaved threads on the eager handle',
         text='Per seeded world an explicit list of read_data windows (all windows of channels <=24 values in the '
              'thorough tier), slices and integer indices is executed on a lazily opened and an eagerly read handle '
              'and compared with numpy indexing on the full array from the reference model (or, for a file cut inside '
@@ -82,14 +83,16 @@ CHECKS = {
     'C15': dict(
         level='exploration', ref='DESIGN.md §4 C15',
         technique='deterministic simulation (fault-free, metamorphic): each seeded world encoded little-endian, '
-                  'big-endian and with per-segment byte order by the stub; reads compared with each other and the model',
+                  'big-endian and with per-segment byte order by the stub; reads (incl. round-robin interleaved chunk streams '
+                  'of all channels) compared with each other and the model',
         text='The same logical content (incl. DAQmx scaler records and buffers, timestamps, strings, all property '
              'types, header inheritance across byte-order changes) is encoded three ways; eager and lazy reads of '
              'all three must be identical and equal to the model.'),
     'C19': dict(
         level='exploration', ref='DESIGN.md §4 C19',
         technique='deterministic simulation: I/O-trace monitor on the simulated disk; every read()/readinto() of each '
-                  'op in a seeded history is checked against the byte set allowed by the model\'s provenance table',
+                  'op in a seeded history is checked against the byte set allowed by the model\'s provenance table; repeated '
+                  'index reads partly from another (sequential) thread; 10% truncated files',
         text='A recording SimFile is handed to TdmsFile.open; for seeded histories of windows, slices and integer '
              'indices every byte fetched must lie in the requested channel\'s extents (contiguous) or the chunk '
              'extents (interleaved/DAQmx) of the chunks overlapping the request, plus 4 tag bytes per segment in '
@@ -117,7 +120,8 @@ CHECKS = {
     'C09': dict(
         level='exploration', ref='DESIGN.md §4 C09',
         technique='deterministic simulation of two-file storage: index discovery through the os.path.isfile seam, index '
-                  'absent / stub-made / writer-made, crash of the data file under a complete index; with-index vs '
+                  'absent / stub-made / writer-made, crash of the data file under a complete index, directory entries '
+                  'renamed or replaced after TdmsFile.open (handles are bound to storage, not names); with-index vs '
                   'without-index runs compared',
         text='Seeded two-file worlds on SimFS and real paths; read / open (+windows, chunk streams) / read_metadata '
              'with and without the index must give identical objects, properties, lengths, dtypes and data, also '
@@ -128,7 +132,7 @@ CHECKS = {
         technique='deterministic simulation (fault-free): reader->writer composition through simulated storage; source '
                   'and destination read with raw timestamps and compared; destination parsed by the strict parser; '
                   'descriptor table checked; 15% of the sources are files cut short by a crash; stub-made sources are also '
-                  'compared with the reference model',
+                  'compared with the reference model; in-place defragment (destination path = source path)',
         text='Seeded non-DAQmx sources (stub- and writer-made; fragmented, typeless / empty / property-only channels, '
              'strings, full-range raw timestamps, NI_Scale properties) are defragmented to paths and streams with and '
              'without index; groups, channels, properties, lengths, bit-identical raw values, dtype (when len >= 1) and '
@@ -136,8 +140,9 @@ CHECKS = {
     'C13': dict(
         level='exploration', ref='DESIGN.md §4 C13',
         technique='deterministic simulation: op histories on eager and lazy handles over worlds with seeded NI_Scale '
-                  'graphs; per-operation invariants (purity, elementwise, lazy == eager) and an exact rational '
-                  'reference evaluator',
+                  'graphs; per-operation invariants (purity, elementwise, lazy == eager), an exact rational '
+                  'reference evaluator, and 2-3 concurrent readers of the eagerly read file under a deterministic '
+                  'thread interleaver (baton-passing threads pre-empted at line events inside nptdms)',
         text='Seeded scale graphs (Linear / Polynomial / Table / Add / Subtract / DAQmx scaler inputs, arbitrary wiring, '
              'channel / group / root placement, NI_Scaling_Status shadowing); scaled full reads are compared with an '
              'independent exact evaluator (relative tolerance 1e-10, 2e-5 for float32 raw data); windows, indices and '
@@ -156,7 +161,8 @@ CHECKS = {
         technique='deterministic simulation with fault injection on the simulated descriptor table: every open() call '
                   'failing, EIO and caller interruption at every read event, ENOSPC at every write event, every structural '
                   'field garbled, foreign index, close() at every position of an op history with suspended generators, '
-                  'overlapping lifetimes of two TdmsFile objects; /proc/self/fd sample on real files',
+                  'overlapping lifetimes of two TdmsFile objects, one TdmsWriter object entered three times; /proc/self/fd '
+                  'sample on real files',
         text='Per seeded world and API scenario (read, read_metadata, open+ops+close, with-open, defragment, TdmsWriter '
              'with-block; path and stream; with and without index) the fault points are enumerated exhaustively: after '
              'the call returns or raises no library-owned handle may be open and no caller-owned stream closed; close() '
@@ -220,7 +226,7 @@ def main():
         }],
         'checks': checks,
         'not_applicable': na,
-        'notes': 'Deterministic simulation with fault injection; see DESIGN.md. ./check <id> --tier quick|thorough; '
+        'notes': 'Deterministic simulation with fault injection; see DESIGN.md. Every check also fixes the local time zone from the seed and runs a short secondary pass under python -O. ./check <id> --tier quick|thorough; '
                  'VERIF_SEED, VERIF_BUDGET_S, VERIF_WORKERS, VERIF_REPO are honoured. Exit 0 held / 1 VIOLATION / '
                  '2 HARNESS-ERROR.',
     }
